@@ -261,6 +261,27 @@ pub fn exec_case(env: &mut Env, rep: &mut Report, case: &Case) {
             rep.finding("C01", &sig, wlen, || case.to_json(), || format!("lint panicked at {}: {}", p.loc, p.msg));
             rep.count("panics", 1);
             env.drop_group(&case.cfg, case.dialect);
+            if env.focus == "C03" {
+                // one rule's panic must not hide what the other rules hand out for this document: each rule alone
+                // (what `harper-cli lint --only-lint-with <rule>` or a one-rule configuration runs)
+                rep.count("rule_by_rule_after_panic", 1);
+                let keys = env.rule_keys.clone();
+                for k in keys {
+                    let one = Cfg::Only(k.clone());
+                    let mut lg = LintGroup::new_curated(env.dict.clone(), case.dialect);
+                    one.apply(&mut lg);
+                    if let Ok(ls) = guarded(|| lg.lint(&doc)) {
+                        for l in &ls {
+                            rep.evaluations += 1;
+                            if let Some(v) = lintmon::check_lint(l, &source) {
+                                let sig = lint_sig(v.clause, l);
+                                let alone = Case { fam: case.fam, fe: case.fe, wrap: case.wrap, text: case.text.clone(), cfg: one.clone(), dialect: case.dialect };
+                                rep.finding("C03", &sig, wlen, || alone.to_json(), || format!("{} (rule {k} alone; with the configuration of the case another rule panics)", v.detail));
+                            }
+                        }
+                    }
+                }
+            }
             return;
         }
     };
@@ -998,6 +1019,76 @@ pub fn worker(ctx: &mut Ctx) {
                 t.extend(chars[at + 1..].iter());
                 let fe = if k % 3 == 2 { Fe::Md } else { Fe::Plain };
                 run!(Case { fam: "whitespace-run", fe, wrap: Wrap::None, text: t, cfg: cfg.clone(), dialect });
+            }
+        }
+    }
+
+    // Q. Unicode white space: every White_Space character (and its zero-width neighbours) as the separator between two
+    //    words of a rule sentence and as the last characters of a text, raw in every markup front-end and inside a
+    //    comment of every language.  A character whose UTF-8 length differs from 1 next to the end of the text is where a
+    //    byte/character mix-up in a front-end's white-space token becomes an out-of-bounds token or lint.
+    {
+        let ws = [
+            "\u{2028}", "\u{2029}", "\u{85}", "\u{0B}", "\u{0C}", "\u{A0}", "\u{1680}", "\u{2000}", "\u{2003}", "\u{2009}", "\u{200A}", "\u{202F}", "\u{205F}",
+            "\u{3000}", "\u{200B}", "\u{FEFF}", "\t", "\r", " ",
+        ];
+        let n_sent = ctx.budget(12, 160) as usize;
+        let stride = (corpus.sentences.len() / n_sent.max(1)).max(1);
+        let first = (ctx.seed as usize) % stride;
+        for si in (first..corpus.sentences.len()).step_by(stride).take(n_sent) {
+            let sent = &corpus.sentences[si];
+            let chars: Vec<char> = sent.chars().collect();
+            let blanks: Vec<usize> = chars.iter().enumerate().filter(|(_, c)| **c == ' ').map(|(i, _)| i).collect();
+            if chars.len() > 200 {
+                continue;
+            }
+            let mut r = Rng((si as u64).wrapping_mul(0xD1B54A32D192ED03) ^ ctx.seed);
+            for (wi, w) in ws.iter().enumerate() {
+                unit += 1;
+                if !ctx.mine(unit) {
+                    continue;
+                }
+                let (cfg, dialect) = stream.cfg_for(unit);
+                let mut shapes: Vec<String> = vec![
+                    format!("{sent}{w}"),
+                    format!("{sent} {w}"),
+                    format!("{sent}{w} "),
+                    format!("{sent}{w}{w}"),
+                    format!("{sent}{w}{w}{w}x"),
+                    format!("{sent}{w}x"),
+                    format!("{sent} {w}ab"),
+                    format!("{w}{sent}"),
+                    format!("{sent}\n{w}"),
+                ];
+                if !blanks.is_empty() {
+                    let at = blanks[r.below(blanks.len())];
+                    for sep in [w.to_string(), format!(" {w}"), format!("{w} "), format!("{w}{w}")] {
+                        let mut t: String = chars[..at].iter().collect();
+                        t.push_str(&sep);
+                        t.extend(chars[at + 1..].iter());
+                        shapes.push(t);
+                    }
+                    // the last blank of the sentence: the white space sits a word away from the end
+                    let at = *blanks.last().unwrap();
+                    let mut t: String = chars[..at].iter().collect();
+                    t.push_str(&format!("{w}{w}"));
+                    t.extend(chars[at + 1..].iter());
+                    shapes.push(t);
+                }
+                for (k, text) in shapes.into_iter().enumerate() {
+                    for fe in all_fes.iter().copied() {
+                        let doc = if fe.is_comment() {
+                            if (!ctx.quick() && (k + wi) % 4 != 0) || (k + wi + si) % 4 == 0 {
+                                embed(fe, &mut r, &text)
+                            } else {
+                                continue;
+                            }
+                        } else {
+                            text.clone()
+                        };
+                        run!(Case { fam: "unicode-space", fe, wrap: Wrap::None, text: doc, cfg: cfg.clone(), dialect });
+                    }
+                }
             }
         }
     }
